@@ -422,3 +422,31 @@ add('C01.update_instr_conditional', 'C01', (TP, "    self._update_instructions(\
     "    if trans_info.op_id > 0:\n      self._update_instructions(\n          transformation_index,\n          transformation_inst.instructions,\n          transformation_inst.subgraph_id,\n          trans_info,\n      )"),
     'C01.R8', 'later instructions not retargeted when the op was inserted at position 0')
 add('C01.twin_guard_eq', 'C01', (DQI, "    if consumer_id < 0:\n      continue  # -1 stands for the graph output, handled below.", "    if consumer_id == -1:\n      continue"), (), 'sentinel guard written as == -1', kind='twin')
+add('C17.rebuild_drops_symmetric', 'C17', (UQT, "      num_bits=quantization_params.num_bits,\n      symmetric=quantization_params.symmetric,\n      quantized_dimension=quantization_params.quantized_dimension,\n      quantized_data=quantization_params.quantized_data,\n  )\n\n\ndef uniform_quantize_for_emulated_subchannel(",
+    "      num_bits=quantization_params.num_bits,\n      quantized_dimension=quantization_params.quantized_dimension,\n      quantized_data=quantization_params.quantized_data,\n  )\n\n\ndef uniform_quantize_for_emulated_subchannel("),
+    'C17.R10', 'rank-fixed parameters rebuilt without `symmetric` (defaults to True: asymmetric params clipped to the narrow range) (seeded b3-C17; MISSED by the first version of the check)')
+
+# ---------------------------------------------------------------------- C02
+add('C02.f6a', 'C02', (DQI, "  if -1 in transformation_input.consumers:\n    for output_idx, output in enumerate(transformation_input.subgraph.outputs):\n      if output == transformation_input.tensor_id:\n        transformation_input.subgraph.outputs[output_idx] = new_tensor_id",
+    "  for output_idx, output in enumerate(transformation_input.subgraph.outputs):\n    if output == transformation_input.tensor_id:\n      transformation_input.subgraph.outputs[output_idx] = new_tensor_id"),
+    'C02.R3', 'defect F6a returns: graph output rewired by an instruction that does not cover it', control=True)
+add('C02.f6b', 'C02', (MMF, "    self._update_signature_outputs(quantized_model, original_outputs)\n", ""), 'C02.R3', 'defect F6b returns: signature outputs never retargeted', control=True)
+add('C02.global_map', 'C02', (MMF, "    for signature_def in quantized_model.signatureDefs or []:\n      subgraph_id = signature_def.subgraphIndex\n      replaced_outputs = dict(\n          zip(\n              original_outputs[subgraph_id],\n              quantized_model.subgraphs[subgraph_id].outputs,\n          )\n      )\n",
+    "    replaced_outputs = {}\n    for subgraph, outputs in zip(quantized_model.subgraphs, original_outputs):\n      replaced_outputs.update(zip(outputs, subgraph.outputs))\n    for signature_def in quantized_model.signatureDefs or []:\n"),
+    'C02.R3', 'one old->new output table for the whole model (seeded a1-C02)')
+add('C02.sig_subgraph0', 'C02', (MMF, "      subgraph_id = signature_def.subgraphIndex\n", "      subgraph_id = 0\n"), 'C02.R3', 'signature outputs remapped with the outputs of subgraph 0')
+add('C02.rewire_all_ops', 'C02', (QI, "  for consumer_id in transformation_input.consumers:\n    if consumer_id < 0:\n      continue  # -1 stands for the graph output, handled below.\n    op = transformation_input.subgraph.operators[consumer_id]\n",
+    "  for consumer_id in range(len(transformation_input.subgraph.operators)):\n    op = transformation_input.subgraph.operators[consumer_id]\n"), ('C02.R2', 'C01.R6'), 'every operator reading the tensor is rewired, not only the listed consumers')
+add('C02.no_eq_guard', 'C02', (QI, "      if op.inputs[input_idx] == transformation_input.tensor_id:\n        op.inputs[input_idx] = new_tensor_id", "      if input_idx == 0:\n        op.inputs[input_idx] = new_tensor_id"),
+    'C02.R2', 'first operand rewired regardless of which tensor it reads')
+add('C02.rename_source', 'C02', (DQI, "  # quantize the source tensor\n  quantize_tensor.quantize_tensor(transformation_input)\n", "  # quantize the source tensor\n  quantize_tensor.quantize_tensor(transformation_input)\n  tensor.name = tensor.name + b'_quantized'\n"),
+    'C02.R1', 'source tensor renamed by insert_dequant')
+add('C02.reshape_source', 'C02', (QTS, "    tensor.quantization = flatbuffer_quantization\n", "    tensor.quantization = flatbuffer_quantization\n    tensor.shape = list(tensor.shape)\n"), 'C02.R1', 'quantize_tensor writes the shape of the source tensor')
+add('C02.no_deepcopy', 'C02', (MMF, "    quantized_model = copy.deepcopy(\n        flatbuffer_utils.read_model_from_bytearray(self._model_content)\n    )", "    quantized_model = flatbuffer_utils.read_model_from_bytearray(\n        self._model_content\n    )"),
+    'C02.R4', 'parsed model transformed in place without the deep copy')
+add('C02.snapshot_after', 'C02', (MMF, "    original_outputs = [\n        list(subgraph.outputs) for subgraph in quantized_model.subgraphs\n    ]\n    self._transformation_performer.transform_graph(\n        instructions, quantized_model\n    )\n",
+    "    self._transformation_performer.transform_graph(\n        instructions, quantized_model\n    )\n    original_outputs = [\n        list(subgraph.outputs) for subgraph in quantized_model.subgraphs\n    ]\n"), 'C02.R3', 'outputs snapshotted after the transformation (identity remap)')
+add('C02.twin_helper', 'C02', (MMF, "      for tensor_map in signature_def.outputs or []:\n        tensor_map.tensorIndex = replaced_outputs.get(\n            tensor_map.tensorIndex, tensor_map.tensorIndex\n        )",
+    "      for tensor_map in signature_def.outputs or []:\n        if tensor_map.tensorIndex in replaced_outputs:\n          tensor_map.tensorIndex = replaced_outputs[tensor_map.tensorIndex]"), (), 'membership test + subscript instead of dict.get', kind='twin')
+add('C12.drop_block_size', 'C12', (QT, "    params_copy = copy.deepcopy(params)\n    return cls(**params_copy)", "    params_copy = copy.deepcopy(params)\n    if params_copy.get('granularity', QuantGranularity.TENSORWISE) != QuantGranularity.BLOCKWISE:\n      params_copy.pop('block_size', None)\n    return cls(**params_copy)"),
+    'C12.R1', 'from_dict normalises block_size away for non-blockwise configs (seeded b3-C12; MISSED by the first version: the lattice did not vary block_size)')
